@@ -127,6 +127,19 @@ func compare(c *hcase, ob *obs, ans []string) []mismatch {
 			} else {
 				canon = a
 			}
+		case "files":
+			f := strings.Fields(a)
+			if len(f) == 2 && f[0] == "files" {
+				canon = "files " + sortCSV(f[1])
+			} else {
+				canon = a
+			}
+		case "path":
+			if a == "none" {
+				canon = "panic" // no open file: nil dereference in GetLogFilePath
+			} else {
+				canon = a
+			}
 		default:
 			canon = a
 		}
